@@ -468,7 +468,8 @@ def _payload(m, lv, bi, b, payload, nprng):
 def write_plotfile(m, path, ref_ratio_extra=0, trailing_blank=True, close_blank=False,
                    floatfmt="repr", levels=None, index_shift=0):
     """Write model m at `path`. Records m.offsets / m.files (per level, per box)."""
-    ff = {"repr": fmt_repr, "17g": fmt_17g, "16e": fmt_16e}[floatfmt]
+    # "6g": what a C++ stream at its default precision writes (cell sizes such as 0.166667 / 0.0833333)
+    ff = {"repr": fmt_repr, "17g": fmt_17g, "16e": fmt_16e, "6g": lambda x: "%g" % float(x)}[floatfmt]
     # index space that does not start at 0 (level-0 shift s, level lv shift s * 2**lv). NOT used by any
     # check: the repository derives grid sizes as "domain hi + 1", i.e. it assumes a zero-based domain
     # throughout, so such plotfiles are outside the well-formed inputs the properties quantify over
@@ -684,3 +685,33 @@ def poison_covered(m, seed=0, frac=0.6):
             a[pick] = vals
             n += k
     return n
+
+
+TIES = [(2.665, -1.145), (1.295e-05, -0.2005), (1.055, -1.165e-05), (0.02665, -2.675), (1.005, -1.015)]
+
+
+def tie_extrema(m, seed=0):
+    """Give the first fields extrema that sit on a decimal tie at the third significant digit (2.665,
+    -1.145, 1.295e-05 ... - four-digit decimals ending in 5 that binary floating point cannot hold exactly):
+    every value of the field is drawn between the two, the maximum and the minimum are planted in the
+    finest level (so the all-level and the finest-level extrema are the same)"""
+    rng = np.random.default_rng(seed)
+    fin = m.nlevels - 1
+    for f in range(min(m.nfields, len(TIES))):
+        hi, lo = TIES[f]
+        for lv in range(m.nlevels):
+            for bi in range(len(m.data[lv])):
+                a = m.data[lv][bi] = np.array(m.data[lv][bi], dtype=np.float64, order="F", copy=True)
+                a[..., f] = lo * 0.5 + (hi * 0.5 - lo * 0.5) * rng.random(a.shape[:-1])
+        a = m.data[fin][0]
+        flat = a[..., f].reshape(-1, order="F")
+        idx = np.unravel_index(0, a.shape[:-1], order="F")
+        a[idx + (f,)] = hi
+        if flat.size > 1:
+            idx = np.unravel_index(flat.size - 1, a.shape[:-1], order="F")
+            a[idx + (f,)] = lo
+        else:
+            b = m.data[fin][-1] if len(m.data[fin]) > 1 else None
+            if b is not None:
+                b[(0,) * (b.ndim - 1) + (f,)] = lo
+    return m
